@@ -27,7 +27,8 @@ LEAN_MODULES = ["LunaVerif.Props.C25", "LunaVerif.Lemmas.C25Tx12", "LunaVerif.Le
                 "LunaVerif.Lemmas.C25RxFifo", "LunaVerif.Lemmas.C25RxFifoStream", "LunaVerif.Lemmas.C25RxFifoSpaced",
                 "LunaVerif.Lemmas.C25RxCdc", "LunaVerif.Lemmas.C25RxCdcStreams", "LunaVerif.Lemmas.C25RxCdcPacket",
                 "LunaVerif.Props.C25RxUsb", "LunaVerif.Lemmas.C25RxErrSeen", "LunaVerif.Props.C25RxUsbErr",
-                "LunaVerif.Props.C25Phy"]
+                "LunaVerif.Props.C25Phy",
+                "LunaVerif.Lemmas.C25RxDriftFront", "LunaVerif.Lemmas.C25RxDriftBack", "LunaVerif.Props.C25RxDrift"]
 DRIVER = "Driver/C25.lean"
 REQUIRED_THEOREMS = ["decode_encode", "no_seven_ones_on_wire", "stuff_error_detected", "never_drives_in_nondriving",
                      "pulls_follow_requests",
@@ -43,7 +44,11 @@ REQUIRED_THEOREMS = ["decode_encode", "no_seven_ones_on_wire", "stuff_error_dete
                      "stuff_error_seen_by_usb",
                      # the whole PHY with the operating mode changing during a transmission (Model/Phy/FsPhy.lean)
                      "phy_never_drives_in_nondriving", "phy_pulls_follow_requests", "phy_normal_is_tx",
-                     "phy_other_modes_idle_tx", "phy_raw_drive"]
+                     "phy_other_modes_idle_tx", "phy_raw_drive",
+                     # the receive chain under clock drift (cell streams of 3/4/5 samples per bit)
+                     "rx_pipeline_decodes_encode_drift", "stuff_error_detected_cycle_drift", "blockD", "front_blocksD",
+                     "back_vblocks", "track_of_drift", "trackable_of_drift", "lockD", "floor_cells_driftOk",
+                     "rx_drift_nominal"]
 RULE = ("tx: packets of 1..70 random / all-ones / stuffing-boundary bytes, tx_data garbage between packets, random "
         "inter-packet gaps, the producer holds each byte until tx_ready; the D+/D- waveform is compared bit by bit "
         "with the Lean `encode` and with an independent Python encoder.  txc/txp: the cycle-level Lean model of the "
@@ -53,11 +58,19 @@ RULE = ("tx: packets of 1..70 random / all-ones / stuffing-boundary bytes, tx_da
         "and idle garbage, tx_valid toggling at random usb cycles, and inputs changing in arbitrary usb_io cycles.  "
         "rx: `encode` waveforms (and waveforms with a "
         "seventh 1 inserted) resampled at 4x with sampling phase 0..3 (+fraction) and clock offsets 0, +-0.1%, "
-        "+-0.25%, random idle gaps; delivered bytes compared with the Lean `decode`.  rxc: the cycle-level Lean model "
+        "+-0.25%, random idle gaps -- every third case instead as a drifting CELL STREAM drawn from the envelope of the drift "
+        "theorems (the Python twin `drift_ok` of the Lean predicate `driftOk`: every bit cell 3, 4 or 5 samples, two "
+        "cells of length != 4 at least 8 cells apart -- 9 for the packets with a seventh 1 --, slow / fast / 3s and 5s "
+        "mixed, slips mostly as dense as allowed, from the first cell on, any number >= 20 of idle samples between "
+        "packets); delivered bytes compared with the Lean `decode`.  rxc: the cycle-level Lean model "
         "of the receive chain (`FsRx.step`) against the real RxPipeline usb_io cycle by usb_io cycle on 21 signals (the "
         "ports of RxClockDataRecovery, RxNRZIDecoder, RxPacketDetect, RxBitstuffRemover, RxShifter, the write ports of "
         "both clock-domain-crossing FIFOs, o_receive_error); stimulus: nominal-rate packets (good / seventh 1) in all "
-        "four sampling phases, the same with clock offsets up to +-10% and truncated / non-byte-multiple packets and "
+        "four sampling phases, mode 'envelope': the same packets as drifting cell streams from the envelope of the drift "
+        "theorems (as for rx; same monitor as at nominal rate: events written into the clock-domain crossing = start, "
+        "the bytes, end; no error on a good packet; error latched after a seventh 1; coverage tags env:len3, env:len5, "
+        "env:slip-in-first-cell, -in-se0, -late-in-long-run, -in-single-cell-run, env:slips-closest, env:3-and-5-mixed), "
+        "the same with clock offsets up to +-10% and truncated / non-byte-multiple packets and "
         "gaps down to 0 bit times, single-cycle glitches incl. SE1, and random line states.  rxd: the same stimulus, the "
         "Lean model with the clock-domain crossing (`FsRxCdc.step phase`: both AsyncFIFOBuffered with Gray pointers, "
         "synchronizers, memory, output register, and o_pkt_in_progress) against the usb-domain outputs of the real "
@@ -96,6 +109,13 @@ ASSUMPTIONS = [
     "the previous packet; c = free-running bit-stuff counter 0..6, e = error latch of the previous packet, both "
     "arbitrary); rx_pipeline_decodes_encode / stuff_error_detected_cycle are about what is written into the two "
     "AsyncFIFOBuffered clock-domain crossings",
+    "receive theorems under clock drift (rx_pipeline_decodes_encode_drift, stuff_error_detected_cycle_drift): the line "
+    "is a stream of bit cells of 3, 4 or 5 usb_io samples each (both lines changing in the same sample), two cells of "
+    "length != 4 at least 8 cells apart (`DriftOk`; for packets that violate bit stuffing: at least longest-run + 1 "
+    "cells apart, `trackable_of_drift`); a transmitter within +-0.25 % of the nominal bit rate, transitions at "
+    "floor(phi + k T), produces such streams with the slips at least 100 cells apart (floor_cells_driftOk); the packet "
+    "starts after any number of idle samples from an idle state `idleSt c e` and is followed by at least 15 idle "
+    "samples; about the writes into the clock-domain crossing",
     "end-to-end receive theorem rx_delivers_to_usb: in addition usb (12 MHz) is usb_io (48 MHz) divided by 4, edge aligned, "
     "any constant phase; both FIFOs empty and settled when the packet starts (any pointer position / memory contents; "
     "true 15 cycles after reset and 27 idle cycles after the previous packet); the packet has at least one byte; "
@@ -114,10 +134,19 @@ PARTIAL = ("Transmit direction fully in theorems over the cycle-level model that
            "exactly start, the bytes in order with strobe while in-progress, end, with no error while in progress "
            "(rx_delivers_to_usb, rx_pipeline_decodes_encode), and seven consecutive 1s anywhere in a packet latch the "
            "error until the next packet start and are seen as rx_error while rx_active is high "
-           "(stuff_error_detected_cycle, stuff_error_seen_by_usb).  NOT in a theorem (co-simulation only): the 48 MHz "
-           "clock/data recovery when the transmitter's bit clock is off-nominal (+-0.25% drift, jitter: runtime timing) or "
-           "the two lines switch in different samples -- the receive theorems assume exactly four clean samples per bit "
-           "(they cover every sampling phase); packets without any byte (SYNC directly followed by EOP) are outside "
+           "(stuff_error_detected_cycle, stuff_error_seen_by_usb).  Clock drift: the receive chain up to the writes "
+           "into the clock-domain crossing is proved for every drifting cell stream -- every bit cell 3, 4 or 5 samples "
+           "of the 48 MHz sampler, two cells of length != 4 at least 8 cells apart (+-0.25 % has them at least 100 "
+           "apart: floor_cells_driftOk), any sampling phase, any byte list, any number of packets: start, the bytes once "
+           "and in order, end, no error (rx_pipeline_decodes_encode_drift), and a seventh 1 latches the error "
+           "(stuff_error_detected_cycle_drift); exactly one strobe of the clock recovery per bit cell on a sample of "
+           "that cell (front_blocksD, track_of_drift; bit stuffing = a transition at least every 7 cells).  NOT in a "
+           "theorem (co-simulation only, incl. the drifting cell streams of the envelope): the CLOCK-DOMAIN CROSSING "
+           "under drift -- rx_delivers_to_usb / stuff_error_seen_by_usb (what the 12 MHz side sees behind the two "
+           "AsyncFIFOBuffered) assume exactly four samples per bit, because their FIFO-latency analysis is per bit time "
+           "of four cycles with a fixed usb clock phase; under drift the writes are 3..5 cycles apart and the usb edge "
+           "moves through the bit time; jitter beyond one sample per 8 cells, and the two lines switching in different "
+           "samples (SE1/SE0 glitch at a transition); packets without any byte (SYNC directly followed by EOP) are outside "
            "rx_delivers_to_usb (start and end flags would be in flight in the flags FIFO together).")
 
 SE0, J, K = 0, 1, 2
@@ -442,13 +471,13 @@ def gen_cases(tier, rng):
     nr = {"quick": 12, "widen": 40}.get(tier, 160)
     for k in range(nr):
         out.append({"kind": "rxc", "seed": rng.u64(), "k": k,
-                    "mode": ["nominal", "drift", "nominal", "noise", "nominal", "random"][k % 6],
+                    "mode": ["nominal", "drift", "envelope", "noise", "nominal", "random"][k % 6],
                     "big": int(tier == "thorough" and k % 8 == 0)})
     # the same with the clock-domain crossing: usb-domain outputs of RxPipeline, all four usb clock phases
     nd = {"quick": 8, "widen": 24}.get(tier, 120)
     for k in range(nd):
         out.append({"kind": "rxd", "seed": rng.u64(), "k": k, "phase": k % 4,
-                    "mode": ["nominal", "drift", "nominal", "noise", "random", "nominal", "nominal", "drift"][k % 8],
+                    "mode": ["nominal", "drift", "nominal", "noise", "random", "nominal", "envelope", "drift"][k % 8],
                     "big": int(tier == "thorough" and k % 8 == 0)})
     # the whole PHY with op_mode / pull requests changing at every phase of a transmission, all four usb clock phases
     np_ = {"quick": 16, "widen": 48}.get(tier, 240)
@@ -471,6 +500,68 @@ def resample(syms, phase, ppm):
             i = int(x)
             out.append(syms[i] if i < len(syms) else J)
     return out
+
+
+def drift_ok(lens, M):
+    """The drift envelope of the receive theorems, as in Lean (`driftOk M M lens`, Lemmas/C25RxDriftFront.lean): every
+    bit cell has 3, 4 or 5 samples and two cells of length != 4 are at least M cells apart."""
+    g = M
+    for n in lens:
+        if n == 4:
+            g += 1
+        elif n in (3, 5) and g + 1 >= M:
+            g = 0
+        else:
+            return False
+    return True
+
+
+def envelope_lens(rng, n, M):
+    """cell lengths (48 MHz samples per bit cell) inside the envelope `drift_ok(., M)`: a slow / fast transmitter (all
+    slips 5 resp. 3), or 3s and 5s mixed; slips mostly as close together as the envelope allows, sometimes 100 apart
+    (+-0.25 %); the first slip anywhere from the very first cell (the K the receiver locks on) on"""
+    style = rng.weighted([(3, "slow"), (3, "fast"), (3, "mixed"), (1, "nominal")])
+    lens = [4] * n
+    if style != "nominal":
+        i = rng.below(M + 2)
+        while i < n:
+            lens[i] = 5 if style == "slow" else 3 if style == "fast" else rng.choice([3, 5])
+            i += rng.weighted([(5, M), (2, M + rng.below(5)), (1, 100)])
+    assert drift_ok(lens, M), lens
+    return lens
+
+
+def envelope_samples(rng, waves, viol):
+    """per-sample symbols for the packets `waves` (symbols per bit, each ending in the J of the EOP) as drifting cell
+    streams from the envelope of the theorems (rx_pipeline_decodes_encode_drift: M = 8 for correctly stuffed packets, a
+    line transition at least every 7 cells; stuff_error_detected_cycle_drift / trackable_of_drift: M = longest run + 1 =
+    9 for the packets of bad_stuff_wave); any number of idle samples >= 20 (= EOP J + 4 bit times) between packets, so
+    every sampling phase occurs"""
+    out = [J] * rng.range(16, 48)
+    tags = set()
+    for w, v in zip(waves, viol):
+        M = 9 if v else 8
+        lens = envelope_lens(rng, len(w) - 1, M)
+        last = None
+        for i, (sym, n) in enumerate(zip(w[:-1], lens)):
+            out += [sym] * n
+            if n != 4:
+                tags.add("env:len%d" % n)
+                if i == 0:
+                    tags.add("env:slip-in-first-cell")
+                if sym == SE0:
+                    tags.add("env:slip-in-se0")
+                if i >= 5 and all(x == sym for x in w[i - 5:i]):
+                    tags.add("env:slip-late-in-long-run")
+                if i + 1 < len(w) and w[i - 1] != sym and w[i + 1] != sym:
+                    tags.add("env:slip-in-single-cell-run")
+                if last is not None and i - last == M:
+                    tags.add("env:slips-closest")
+                if last is not None and lens[last] != n:
+                    tags.add("env:3-and-5-mixed")
+                last = i
+        out += [J] * rng.range(20, 120)
+    return out + [J] * 24, tags
 
 
 # ------------------------------------------------------------------------------------------------ cases
@@ -576,6 +667,10 @@ def run_rx(desc):
         marks.append(len(ideal))
         ideal += w + [J] * rng.range(4, 40)
     samples = resample(ideal, phase, ppm)
+    envelope = desc.get("k", 0) % 3 == 2
+    if envelope:
+        # every third case: drifting cell streams from the envelope of the receive theorems instead of a constant offset
+        samples, envtags = envelope_samples(rng0.fork("envelope"), waves, [m == "violation" for m in metas])
     b = Bench()
     rxr = RxRecorder()
     rec = LineRecorder()
@@ -605,7 +700,7 @@ def run_rx(desc):
             cur["end"] = k
             cur = None
     outputs = []
-    tags = {"rx", "ppm=%d" % ppm, "phase=%d" % int(phase)}
+    tags = ({"rx", "rx:envelope"} | envtags) if envelope else {"rx", "ppm=%d" % ppm, "phase=%d" % int(phase)}
     if len(pk) != len(waves):
         fail(0, "rx-packet-count", "%d receive-active intervals for %d packets on the line" % (len(pk), len(waves)))
     for i, w in enumerate(waves):
@@ -1216,9 +1311,10 @@ def rxc_stimulus(rng, mode, big):
         return out, None
     ideal = [J] * rng.range(4, 12)
     metas = []
+    waves = []
     for _ in range(rng.range(2, 5)):
         kind = rng.weighted([(6, "good"), (2, "violation"), (1, "truncated"), (1, "odd"), (2, "shortsync")])
-        if mode == "nominal" and kind in ("truncated", "odd", "shortsync"):
+        if mode in ("nominal", "envelope") and kind in ("truncated", "odd", "shortsync"):
             kind = "good"
         p = gen_bytes(rng, 40 if big else 12)
         if kind == "good":
@@ -1236,11 +1332,16 @@ def rxc_stimulus(rng, mode, big):
             cut = rng.range(1, 7)
             w = w[:-3 - cut] + [SE0, SE0, J]
         metas.append((kind, p))
+        waves.append(w)
         # nominal: at least 4 bit times of idle between packets (ASSUMPTIONS); otherwise also shorter gaps
         ideal += w + [J] * (rng.range(4, 30) if mode == "nominal" else rng.weighted([(3, rng.range(4, 30)), (1, rng.range(0, 3))]))
     ideal += [J] * 6
     if mode == "nominal":
         return resample(ideal, rng.below(4), 0), metas
+    if mode == "envelope":
+        # drifting cell streams from the envelope of the drift theorems; same monitor as at nominal rate
+        samples, envtags = envelope_samples(rng, waves, [k == "violation" for k, _ in metas])
+        return samples, metas + [("tags", sorted(envtags))]
     if mode == "drift":
         return resample(ideal, rng.below(4) + rng.below(100) / 100.0,
                         rng.choice([1000, -1000, 2500, -2500, 20000, -20000, 100000, -100000])), None
@@ -1259,10 +1360,13 @@ def run_rxcycle(desc):
     rng = Rng(desc["seed"])
     mode = desc.get("mode", "nominal")
     metas = None
+    envtags = []
     if desc.get("stimulus"):
         rows = [list(r) for r in desc["stimulus"]]
     else:
         samples, metas = rxc_stimulus(rng.fork("stim"), mode, desc.get("big", 0))
+        if metas and metas[-1][0] == "tags":
+            envtags = metas.pop()[1]
         rows = [[1 if x in (J, 3) else 0, 1 if x in (K, 3) else 0] for x in samples]
     dut, s, cap = build_rx_pipeline()
     cdr, nr, det = cap["RxClockDataRecovery"][0], cap["RxNRZIDecoder"][0], cap["RxPacketDetect"][0]
@@ -1275,7 +1379,9 @@ def run_rxcycle(desc):
             dut.o_receive_error]
     phase = desc.get("phase", desc.get("k", 0) % 4)
     if desc["kind"] == "rxd":
-        return _run_rxd(desc, rows, metas, dut, s, pf, ff, phase, mode)
+        c = _run_rxd(desc, rows, metas, dut, s, pf, ff, phase, mode)
+        c.tags = sorted(set(c.tags) | set(envtags))
+        return c
     P = 1e-6
     s.add_clock(P, domain="usb_io")
     s.add_clock(4 * P, phase=P / 2 + phase * P, domain="usb")
@@ -1295,7 +1401,7 @@ def run_rxcycle(desc):
     s.add_testbench(tb)
     s.run()
     fails = []
-    tags = {"rxc", "rxc:" + mode}
+    tags = {"rxc", "rxc:" + mode} | set(envtags)
     # events written into the clock-domain crossing, in order
     ev = []
     for k, o in enumerate(outputs):
